@@ -196,6 +196,21 @@ CHECKS = {
              "Mirror symmetry of the remaining heuristic terms is numeric/geometric and NOT decided.",
         design_ref="DESIGN.md section 4, C13",
         note=TB_COMMON + " The term functions are assumed to use `perspective` only to select the side."),
+    "C07": dict(
+        category="other",
+        technique="static analysis: CFG region analysis of Client::exec's command arms on MIR (dominators, must-pass-through), decoded format templates of every print, "
+                  "forward may-hold (typestate) analysis of live Search values with callee summaries, call-graph effect analysis of the isready arm, "
+                  "def-use provenance of the printed move and of every assignment to the session position, loop-exit dominance in the deepening loop",
+        text="Decides the wiring clauses of the session: all seven commands dispatched on the first token; `uci` prints id name, id author, then uciok last; `isready` "
+             "prints readyok, reaches no blocking callee and touches no search state; no Search is live when Search::spawn is called and a Search's only end of life "
+             "is wait_cancel (Stop sent, search joined, writer joined); bestmove is printed at exactly two sites, each at most once per go, and every path through "
+             "`go` reaches the book print or the spawn; the printed move is an element of the book lookup on / the first move of the last reported line for the "
+             "tracked position; quit/EOF return Ok and the CLI exits non-zero only on Err; current_position is assigned only from State::default(), the parsed FEN, "
+             "or by_performing_moves(current_position, all move tokens in order), and every successful position command re-installs the base first; the deepening "
+             "loop is not left before the iteration's workers ran. NOT decided: reply timing, that a started search always reports a line before it is stopped, "
+             "legality of the searched or book move (C03/C16 rules), output interleaving between threads.",
+        design_ref="DESIGN.md section 4, C07",
+        note=TB_COMMON + " Effect table tables/effects.json names the blocking callees."),
 }
 
 NOT_BUILT_REASON = "check not built yet (see DESIGN.md for the plan)"
